@@ -35,7 +35,7 @@ LETTERS = "abcdefgh"
 DEFAULT_CFG = dict(max_depth=3, max_fields=4, max_alts=3, classes=True, aggregates=True,
                    constraints=True, recursion=True, generics=False, typeddict=True,
                    namedtuple=True, initvar=True, skip=True, dep_req=True, class_aliaser=True,
-                   unsup=True, any=True, undefined=True, enums=True, fall_back=True, explicit_unique=True)
+                   unsup=True, any=True, undefined=True, enums=True, fall_back=True, explicit_unique=True, lit_in_union=True)
 
 
 def pick(draw, xs):
@@ -189,7 +189,28 @@ class TypeGen:
         return {"k": "str"}
 
     # -- types --------------------------------------------------------------------------
+    def nolit(self, t: dict) -> dict:
+        """Serialization refuses Literal members of unions with an explicit TypeError
+        ("Literal[...] is not supported in union serialization"): avoided when cfg says so."""
+        if self.cfg["lit_in_union"]:
+            return t
+        if t["k"] == "opt":
+            return {"k": "opt", "of": self._nolit_alt(t["of"])}
+        if t["k"] == "union":
+            return {"k": "union", "alts": [self._nolit_alt(a) for a in t["alts"]]}
+        return t
+
+    def _nolit_alt(self, a: dict) -> dict:
+        if a["k"] == "lit":
+            return {"k": "str"}
+        if a["k"] in ("opt", "union"):
+            return self.nolit(a)
+        return a
+
     def type(self, depth: int, hashable: bool = False) -> dict:
+        return self.nolit(self._type(depth, hashable))
+
+    def _type(self, depth: int, hashable: bool = False) -> dict:
         d = self.draw
         if depth <= 0:
             return self.leaf(hashable)
@@ -314,6 +335,8 @@ class TypeGen:
                 extra.append({"n": f["n"] + "_st", "t": {"k": "any"}, "kind": "init_false",
                               "default": {"c": ["none"]}, "from_initvar": f["n"]})
         fields += extra
+        if flavor == "typeddict":
+            fields.sort(key=lambda f: 0 if f.get("td_required", True) else 1)  # rendered as base + total=False subclass
         if flavor in ("dataclass", "namedtuple"):
             def rank(f):
                 if f.get("kind") == "init_false":
@@ -394,6 +417,7 @@ class TypeGen:
         elif special < 18:
             f["kind"] = "init_false"
             has_default = True
+        f["t"] = self.nolit(f["t"])
         if has_default:
             f["default"] = {"c": value_for(d, self.prog, f["t"], fuel=1, stack=self.stack)}
             if f.get("kind") == "initvar" and not build._immutable(f["default"]["c"]):
@@ -803,3 +827,51 @@ def simplest_value(prog: dict, t: dict, stack=()) -> Any:
             out[f["n"]] = f["default"]["c"] if f.get("default") is not None else simplest_value(prog, f["t"], stack)
         return ["obj", cd["name"], out]
     raise AssertionError(k)
+
+
+def perturb_value(draw, prog: dict, t: dict, v, depth: int = 0):
+    """Bias typed values towards the omission rules of serialization: fields set to None where the
+    type allows it, to their default, to Undefined where the type allows it."""
+    if depth > 6 or not isinstance(v, list) or not v:
+        return v
+    k = t["k"]
+    if k in ("ann",):
+        return perturb_value(draw, prog, t["of"], v, depth)
+    if k in ("opt", "union"):
+        alts = M.union_alts(t)
+        if v[0] != "none" and any(a["k"] == "none" for a in alts) and chance(draw, 0.15):
+            return ["none"]
+        for a in alts:
+            try:
+                if a["k"] not in ("unsup", "undefined", "none") and M.class_matches(prog, a, v):
+                    return perturb_value(draw, prog, a, v, depth + 1)
+            except M.Unspecified:
+                return v
+        return v
+    if k in ("list", "vartuple") and v[0] in ("list", "tuple"):
+        return [v[0], [perturb_value(draw, prog, t["of"], x, depth + 1) for x in v[1]]]
+    if k == "tuple" and v[0] == "tuple" and len(v[1]) == len(t["items"]):
+        return ["tuple", [perturb_value(draw, prog, it, x, depth + 1) for it, x in zip(t["items"], v[1])]]
+    if k == "map" and v[0] == "dict":
+        return ["dict", [[kk, perturb_value(draw, prog, t["val"], x, depth + 1)] for kk, x in v[1]]]
+    if k == "cls" and v[0] == "obj":
+        cd = prog["classes"][t["i"]]
+        if cd is None or cd["name"] != v[1]:
+            return v
+        out = dict(v[2])
+        for f in cd["fields"]:
+            n = f["n"]
+            if n not in out or f.get("kind", "normal") != "normal" or f.get("from_initvar"):
+                continue
+            r = draw(st.integers(0, 99))
+            alts = M.union_alts(f["t"]) if f["t"]["k"] in ("opt", "union") else [f["t"]]
+            if r < 12 and f.get("default") is not None:
+                out[n] = f["default"]["c"]
+            elif r < 22 and any(a["k"] == "none" for a in alts):
+                out[n] = ["none"]
+            elif r < 28 and any(a["k"] == "undefined" for a in alts):
+                out[n] = ["undef"]
+            elif out[n][0] != "undef":
+                out[n] = perturb_value(draw, prog, f["t"], out[n], depth + 1)
+        return ["obj", v[1], out]
+    return v
